@@ -508,7 +508,7 @@ def _artefacts_eval(db, chk, m, fields):
         if last == "node_link_graph":
             ev.append(("nlg", to_term(pos[0]) if pos else None, plain(kw)))
             return Obj("G")
-        if name == "CPGraph":
+        if name == "CPGraph" or (name == "cls" and I.stack and I.stack[-1].qualname.startswith("CPGraph.")):          # (also cls(...) inside a classmethod of CPGraph)
             ev.append(("ctor", [to_term(p_) for p_ in pos], {k: to_term(v) for k, v in kw.items()}))
             return Obj("RESTORED", cls=(m, "CPGraph"))
         if name.startswith("os.path.exists") or last in ("exists", "is_dir", "isdir"):
@@ -535,7 +535,7 @@ def _artefacts_eval(db, chk, m, fields):
     nlg = [e for e in ev_r if e[0] == "nlg"]
     ctor = [e for e in ev_r if e[0] == "ctor"]
     ob("the graph is rebuilt from the loaded node-link data with the key convention it was written with, and installed through CPGraph(None, t_full, rank, G)",
-       len(nlg) == 1 and nlg[0][1] == ("obj", "NLD-loaded") and nlg[0][2] == gdump[0][3].attrs.get("kw") and len(ctor) == 1 and
+       None if (not nlg or not ctor) else len(nlg) == 1 and nlg[0][1] == ("obj", "NLD-loaded") and nlg[0][2] == gdump[0][3].attrs.get("kw") and len(ctor) == 1 and
        (ctor[0][1] + [ctor[0][2].get(k) for k in ("t", "t_full", "rank", "G") if k in ctor[0][2]])[:1] in ([T.NONE], [None]) and ("obj", "G") in ctor[0][1] + list(ctor[0][2].values()), m.loc(rest_f),
        found={"node_link_graph": [(T.show(e[1]) if e[1] else None, e[2]) for e in nlg], "constructor": [[T.show(x) for x in e[1]] for e in ctor]},
        accepted="G = nx.node_link_graph(<loaded graph pickle>, same keywords as node_link_data); CPGraph(None, t_full, rank, G)")
